@@ -25,4 +25,12 @@ Proof.
   - unfold upd. rewrite N.eqb_refl. apply N.leb_le in Hm. split; [intros _; right; lia|reflexivity].
   - apply N.leb_gt in Hm. split; [intro H; left; exact H|intros [H|H]; [exact H|lia]].
 Qed.
+(* extractIP = the peer address without port and zone, for every address shape the handshake can see: *net.TCPAddr and
+   *net.UDPAddr (IPv4, IPv4-mapped, global IPv6, zone-scoped link-local IPv6) and generic "host:port" addresses.  The one
+   shape allowed to deviate is the recorded finding extractip-generic-addr-keeps-zone (a generic net.Addr whose string
+   keeps the zone; repaired by fixes/C03-extractip-keeps-zone.diff, after which that row is plain as well). *)
+Lemma extract_ip_drops_port_and_zone :
+  length extract_table = 13%nat /\
+  forallb (fun r => let '(_, _, typed, zoned, plain) := r in plain || (negb typed && zoned)) extract_table = true.
+Proof. split; vm_compute; reflexivity. Qed.
 Close Scope N_scope.
